@@ -167,6 +167,9 @@ func runC14Round(w *World) {
 		add("opt-in/other-operator/"+ph, TxSpec{Signer: v1.Oper, Msgs: []sdk.Msg{&providertypes.MsgOptIn{ConsumerId: id, ProviderAddr: v0.ValAddr.String(), Signer: v1.Oper.Addr.String()}}, Tag: "opt-in"}, false, nil, id)
 		add("opt-in/forged-signer-field/"+ph, TxSpec{Signer: stranger, Msgs: []sdk.Msg{&providertypes.MsgOptIn{ConsumerId: id, ProviderAddr: v0.ValAddr.String(), Signer: v0.Oper.Addr.String()}}, Tag: "opt-in"}, false, nil, id)
 		add("assign-key/operator/"+ph, TxSpec{Signer: v0.Oper, Msgs: []sdk.Msg{MsgAssignKey(v0, id, k)}, Tag: "assign-key"}, active, v0, id)
+		// a validator that already holds an assigned key on this consumer tries to take the provider consensus key of another
+		// validator (who uses it, by default, as its key on this consumer)
+		add("assign-key/operator-takes-another-validators-provider-key/"+ph, TxSpec{Signer: v0.Oper, Msgs: []sdk.Msg{MsgAssignKey(v0, id, v1.Key)}, Tag: "assign-key"}, false, nil, id)
 		add("assign-key/other-operator/"+ph, TxSpec{Signer: v1.Oper, Msgs: []sdk.Msg{&providertypes.MsgAssignConsumerKey{ConsumerId: id, ProviderAddr: v0.ValAddr.String(), ConsumerKey: w.KeyPool[(len(cells)+1)%len(w.KeyPool)].SDKPubKeyJSON(), Signer: v1.Oper.Addr.String()}}, Tag: "assign-key"}, false, nil, id)
 		add("assign-key/stranger-forged/"+ph, TxSpec{Signer: stranger, Msgs: []sdk.Msg{&providertypes.MsgAssignConsumerKey{ConsumerId: id, ProviderAddr: v0.ValAddr.String(), ConsumerKey: w.KeyPool[(len(cells)+2)%len(w.KeyPool)].SDKPubKeyJSON(), Signer: v0.Oper.Addr.String()}}, Tag: "assign-key"}, false, nil, id)
 		add("commission/operator/"+ph, TxSpec{Signer: v0.Oper, Msgs: []sdk.Msg{MsgCommission(v0, id, math.LegacyNewDecWithPrec(33, 2))}, Tag: "commission"}, active, v0, id)
